@@ -125,9 +125,16 @@ def run(ctx):
                 ctx.count("same_header_through_another_buffer_type_first")
             except Exception:
                 pass
-        for mode, lazy in modes + [("raw", None)]:
+        direct = [("buffer", None)] if (not fc["header"] or fname in ("gff3", "wig")) and fname not in ("fastaw",) else []      # formats whose buffer class takes the bytes of the whole file
+        for mode, lazy in modes + [("raw", None)] + direct:
             try:
-                if mode == "raw":
+                if mode == "buffer":
+                    # the second observation point: buffer_type.from_raw_buffer(bytes).get_data(), the comment / header lines still in the bytes
+                    bt = tables.get_buffer_type(buffer or fmt.buffer) or bnp.io.files._get_buffer_type(fmt.suffix)
+                    raw_ = fc["data"] if fc["data"].endswith(b"\n") else fc["data"] + b"\n"
+                    table = bt.from_raw_buffer(np.frombuffer(raw_, dtype=np.uint8)).get_data()
+                    ctx.count("direct_buffer_reads")
+                elif mode == "raw":
                     bt = tables.get_buffer_type(buffer or fmt.buffer) or bnp.io.files._get_buffer_type(fmt.suffix)
                     import io
                     f = io.BytesIO(fc["data"])
